@@ -1077,7 +1077,7 @@ func (ex *Exec) step(fr *Frame, ins ssa.Instruction) {
 		for i, b := range x.Bindings {
 			env[i] = ex.eval(fr, b)
 		}
-		ex.set(fr, ins, FuncV{[]FC{{TT, x.Fn.(*ssa.Function), env}}})
+		ex.set(fr, ins, FuncV{[]FC{{g: TT, fn: x.Fn.(*ssa.Function), env: env}}})
 	case *ssa.MakeMap:
 		mt := x.Type().Underlying().(*types.Map)
 		ex.set(fr, ins, MapV{[]MC{{TT, newMap(mt.Key(), mt.Elem())}}})
@@ -1779,7 +1779,13 @@ func (ex *Exec) dispatch(fr *Frame, cc *ssa.CallCommon, fv Value, args []Value, 
 		isNil := TT
 		for _, c := range f.c {
 			isNil = And(isNil, Not(c.g))
-			r, p := ex.callFn(fr, c.fn, args, c.env, And(g, c.g))
+			var r Value
+			p := FF
+			if c.native != nil {
+				r = c.native(fr, args, And(g, c.g))
+			} else {
+				r, p = ex.callFn(fr, c.fn, args, c.env, And(g, c.g))
+			}
 			panicked = Or(panicked, p)
 			if res == nil {
 				res = r
